@@ -4,7 +4,7 @@
    prescribes (tuples by size then elements, lists by elements then length, bit strings by bytes then bit count, maps by
    size then keys then values) for all terms; that their elements in turn compare as Erlang orders them is, beyond the
    leaf theorems, the exhaustive pair check of the correspondence run against an exact Python reference. *)
-From EDP Require Import Base.Bytes Base.F64 Term.Term Gen.Ranks Order.Cmp Order.CmpFacts Order.CmpLaws.
+From EDP Require Import Base.Bytes Base.F64 Term.Term Gen.Ranks Order.Cmp Order.CmpFacts Order.CmpLaws Order.NumLaws Term.Value.
 
 (* Erlang: number < atom < reference < fun < port < pid < tuple < map < nil/list < bit string — both generated tables *)
 Definition spec_rank (t : term) : N :=
@@ -43,6 +43,25 @@ Theorem C12_bigs_msd_first : forall d1 d2,
 Proof. reflexivity. Qed.
 
 (* the recorded deviation classes, each with a witness on the faithful model *)
+(* integers compare by mathematical value across the two representations: any i64 against any big integer with minimal
+   byte digits (what the decoder yields), in either order, and big integers among themselves *)
+Theorem C12_integers_by_value_across_representations : forall a b, int_term a -> int_term b ->
+  cmp_owned a b = (int_value a ?= int_value b)%Z.
+Proof. exact integers_by_value. Qed.
+
+(* the premises in the decidable form the well-formedness check uses, with witnesses at the i64 boundary *)
+Theorem C12_int_term_decidable : forall n d, all_bytes d = true -> minimal_digits d = true -> d <> [] -> int_term (TBig n d).
+Proof. intros n d A M Ne. cbn [int_term]. split; [now apply all_bytes_forall|]. split; [now apply minimal_digits_minimal|exact Ne]. Qed.
+
+Example C12_integers_by_value_example :
+  int_term (TInt (-9223372036854775808)) /\ int_term (TBig true [0; 0; 0; 0; 0; 0; 0; 128]) /\ int_term (TBig false [1; 0; 0; 0; 0; 0; 0; 0; 1]) /\
+  cmp_owned (TInt (-9223372036854775808)) (TBig true [0; 0; 0; 0; 0; 0; 0; 128]) = Eq /\
+  cmp_owned (TInt 9223372036854775807) (TBig false [1; 0; 0; 0; 0; 0; 0; 0; 1]) = Lt.
+Proof.
+  repeat split; try (vm_compute; reflexivity); try (cbn; lia); try discriminate.
+  all: repeat constructor; try (vm_compute; reflexivity); try (unfold minimal; cbn; discriminate).
+Qed.
+
 (* ---- containers ---- *)
 (* the textbook lexicographic comparison over the common prefix *)
 Fixpoint lex (c : term -> term -> comparison) (l1 l2 : list term) : comparison :=
